@@ -283,9 +283,11 @@ class ClassicalDataDictionaryStore(ClassicalDataStore):
         return rep + ')'
 
     def _value_equality_values_(self):
+        # Records and measured qubits compare as sequences of digits / qubits whatever container
+        # holds them: `record_measurement` stores tuples, a store read back from JSON holds lists.
         return (
-            self._records,
+            {k: [tuple(r) for r in v] for k, v in self._records.items()},
             self._channel_records,
             self._measurement_types,
-            self._measured_qubits,
+            {k: [tuple(qs) for qs in v] for k, v in self._measured_qubits.items()},
         )
